@@ -798,4 +798,42 @@ theorem hm_agree {tcp v6 : Bool} {l4 hdrLen : Nat} {a b : Bytes}
                     · exact absurd (Free.tcp (by omega)) hfree
                     · exact getD_of_drop_eq (by simpa using p4) k (by omega)
 
+/-! ### TCP flags, PSH propagation -/
+
+theorem segFlags_eq (f0 fi sup n i : Nat) (h0 : f0 < 256) (hi : fi < 256)
+    (a0 : f0 / 16 % 2 = 1) (o0 : f0 % 8 = 0 ∧ f0 / 32 % 2 = 0 ∧ f0 / 128 % 2 = 0)
+    (ai : fi / 16 % 2 = 1) (oi : fi % 8 = 0 ∧ fi / 32 % 2 = 0 ∧ fi / 128 % 2 = 0)
+    (ece : fi / 64 % 2 = f0 / 64 % 2) (p0 : f0 / 8 % 2 = 0)
+    (hfull : i + 1 < n → fi / 8 % 2 = 0)
+    (hsup : sup = f0 ∨ sup = f0 + 8)
+    (hlast : ¬ i + 1 < n → (sup = f0 + 8 ↔ fi / 8 % 2 = 1)) :
+    fi = segFlags sup n i := by
+  unfold segFlags clearBit
+  simp only [Nat.pow_zero, Nat.reducePow, Nat.div_one]
+  by_cases hlt : i + 1 < n
+  · have := hfull hlt
+    simp only [hlt, ↓reduceIte]
+    rcases hsup with e | e <;> subst e <;> (repeat' split) <;> omega
+  · have := hlast hlt
+    simp only [hlt, ↓reduceIte]
+    rcases hsup with e | e <;> subst e <;> (repeat' split) <;> omega
+
+theorem length_orPsh (raw : Bytes) (off : Nat) : (orPsh raw off).length = raw.length := by
+  unfold orPsh; simp only; split <;> simp
+
+theorem rd_orPsh_ne (raw : Bytes) (off k : Nat) (h : off ≠ k) : rd (orPsh raw off) k = rd raw k := by
+  unfold orPsh; simp only; split
+  · rfl
+  · exact rd_set_ne _ _ _ _ h
+
+theorem byteAt_orPsh (raw : Bytes) (off : Nat) (hl : off < raw.length) (hp : byteAt raw off / 8 % 2 = 0) :
+    byteAt (orPsh raw off) off = byteAt raw off + 8 := by
+  have hb := byteAt_lt raw off
+  unfold orPsh
+  simp only [hasPsh, batch_tcpFlagPsh, hp]
+  simp only [Nat.zero_ne_one, decide_false, Bool.false_eq_true, ↓reduceIte, byteAt_rd]
+  rw [rd_set_eq _ _ _ hl, UInt8.toNat_ofNat']
+  simp only [byteAt_rd] at hb hp
+  omega
+
 end Nebula.Lemmas.Coalesce
